@@ -70,7 +70,9 @@ class UnitarySerializedEmulator(IndependentSubcircuitsBackend):
                 if param.classical:
                     argv.append(val)
                 else:
-                    qind.append(val.alias_index)
+                    # The position of the qubit in the fundamental register
+                    # (val may refer to it through map aliases).
+                    qind.append(val.resolve_qubit()[1])
 
             # This is the dense submatrix
             dsub = gatedef.ideal_unitary(*argv)
